@@ -283,6 +283,12 @@ type GRPCBroker struct {
 
 	muxer grpcmux.GRPCMuxer
 
+	// dialCtx is done once the broker is closed or its stream to the other
+	// side has ended; a blocking Dial (grpc.WithBlock) gives up then instead
+	// of retrying a peer that is gone for ever.
+	dialCtx    context.Context
+	dialCancel context.CancelFunc
+
 	// listeners opened by Accept (without multiplexing each one has a socket
 	// of its own); Close closes whatever is still open.
 	listeners []net.Listener
@@ -297,10 +303,13 @@ type gRPCBrokerPending struct {
 }
 
 func newGRPCBroker(s streamer, tls *tls.Config, unixSocketCfg UnixSocketConfig, addrTranslator runner.AddrTranslator, muxer grpcmux.GRPCMuxer) *GRPCBroker {
+	dialCtx, dialCancel := context.WithCancel(context.Background())
 	return &GRPCBroker{
-		streamer: s,
-		tls:      tls,
-		doneCh:   make(chan struct{}),
+		streamer:   s,
+		tls:        tls,
+		doneCh:     make(chan struct{}),
+		dialCtx:    dialCtx,
+		dialCancel: dialCancel,
 
 		clientStreams: make(map[uint32]*gRPCBrokerPending),
 		serverStreams: make(map[uint32]*gRPCBrokerPending),
@@ -449,6 +458,7 @@ func (b *GRPCBroker) Close() error {
 	b.o.Do(func() {
 		close(b.doneCh)
 	})
+	b.dialCancel()
 
 	// Close the listeners handed out by Accept here rather than leaving it to
 	// the goroutines serving them: when a plugin shuts down its process may
@@ -568,7 +578,7 @@ func (b *GRPCBroker) Dial(id uint32) (conn *grpc.ClientConn, err error) { return
 // Dial opens a connection by ID with options.
 func (b *GRPCBroker) DialWithOptions(id uint32, opts ...grpc.DialOption) (conn *grpc.ClientConn, err error) {
 	if b.muxer.Enabled() {
-		return dialGRPCConn(context.Background(), b.tls, b.muxDial(id), opts...)
+		return dialGRPCConn(b.dialCtx, b.tls, b.muxDial(id), opts...)
 	}
 
 	var c *plugin.ConnInfo
@@ -606,7 +616,7 @@ func (b *GRPCBroker) DialWithOptions(id uint32, opts ...grpc.DialOption) (conn *
 		return nil, err
 	}
 
-	return dialGRPCConn(context.Background(), b.tls, netAddrDialer(addr), opts...)
+	return dialGRPCConn(b.dialCtx, b.tls, netAddrDialer(addr), opts...)
 }
 
 // NextId returns a unique ID to use next.
@@ -624,6 +634,9 @@ func (m *GRPCBroker) NextId() uint32 {
 // Uses of GRPCBroker never need to call this. It is called internally by
 // the plugin host/client.
 func (m *GRPCBroker) Run() {
+	// Nothing more will arrive once the stream has ended.
+	defer m.dialCancel()
+
 	for {
 		msg, err := m.streamer.Recv()
 		if err != nil {
